@@ -21,7 +21,7 @@ macro "psimp" "[" ts:Lean.Parser.Tactic.simpLemma,* "]" : tactic =>
       Ymd.resolveFromStridxs, completeStrids, Ymd.strids, Ymd.nlab, Ymd.at, getIdx, monthrange,
       validate, recombineSkipped, buildNaive, clipDay, dtReplace, shiftBareWeekday, weekdayShift, buildTzaware,
       fixedZone, nameTruthy, Res.len, fieldOr, fieldBig, intMax, tk,
-      tokAt, tokIs, hmsAtIs, bind, Except.bind, pure, Except.pure, throw, throwThe, MonadExceptOf.throw,
+      tokAt, tokIs, hmsAtIs, Except.map, bind, Except.bind, pure, Except.pure, throw, throwThe, MonadExceptOf.throw,
       parseMinSec_int, rem1_int, convertyear_cs, pyInt_dtok, Dec.gtNat, Dec.ltNat, Dec.geNat, Dec.leNat,
       isAsciiDigit, $ts,*])
 
@@ -34,7 +34,7 @@ macro "psimpa" "[" ts:Lean.Parser.Tactic.simpLemma,* "]" : tactic =>
       Ymd.resolveFromStridxs, completeStrids, Ymd.strids, Ymd.nlab, Ymd.at, getIdx, monthrange,
       validate, recombineSkipped, buildNaive, clipDay, dtReplace, shiftBareWeekday, weekdayShift, buildTzaware,
       fixedZone, nameTruthy, Res.len, fieldOr, fieldBig, intMax, tk,
-      tokAt, tokIs, hmsAtIs, bind, Except.bind, pure, Except.pure, throw, throwThe, MonadExceptOf.throw,
+      tokAt, tokIs, hmsAtIs, Except.map, bind, Except.bind, pure, Except.pure, throw, throwThe, MonadExceptOf.throw,
       parseMinSec_int, rem1_int, convertyear_cs, pyInt_dtok, Dec.gtNat, Dec.ltNat, Dec.geNat, Dec.leNat,
       isAsciiDigit, $ts,*, *])
 
